@@ -98,3 +98,27 @@ Proof.
 Qed.
 
 End Retarget.
+
+(* ------------------------------------------------------------------ worlds with the same references *)
+Section Transfer.
+Variable T : tables.
+
+Lemma inv05_transfer w w' :
+  (forall m p r, RefSet T w' m p r <-> RefSet T w m p r) ->
+  (forall m, option_map m_origins (model_at w' m) = option_map m_origins (model_at w m)) ->
+  Inv05 T w -> Inv05 T w'.
+Proof.
+  intros Hrs Ho [IE IT]. constructor.
+  - intros m y Hy p. specialize (Ho m). rewrite Hy in Ho. destruct (model_at w m) as [y0|] eqn:Ey0; [|discriminate].
+    cbn in Ho. injection Ho as Ho. unfold origins_of. rewrite Ho. destruct (IE m y0 Ey0 p) as (H1 & H2).
+    split; [exact H1|]. intros r. unfold origins_of in H2. rewrite H2. symmetry. apply Hrs.
+  - intros m y Hy. specialize (Ho m). rewrite Hy in Ho. destruct (model_at w m) as [y0|] eqn:Ey0; [|discriminate].
+    cbn in Ho. injection Ho as Ho. rewrite Ho. apply (IT m y0 Ey0).
+Qed.
+
+Lemma Inv05_sv w w' : SV w w' -> Inv05 T w -> Inv05 T w'.
+Proof.
+  intros HS [IE IT]. constructor; intros m; [eapply RefsExact_sv|eapply OriginsTidy_sv]; eauto.
+Qed.
+
+End Transfer.
